@@ -400,6 +400,7 @@ func (hs *clientHandshakeStateTLS13) processHelloRetryRequest() error {
 			}
 
 			hs.uconn.extraEcdheKeys = nil // the second ClientHello carries exactly one fresh share
+			hs.uconn.extraHybridKeys = nil
 			keyShareExtFound := false
 			for _, ext := range hs.uconn.Extensions {
 				// new ks seems to be generated either way
@@ -608,6 +609,10 @@ func (hs *clientHandshakeStateTLS13) establishHandshakeKeys() error {
 		// the server may have selected a classical share other than the first one
 		if k, ok := hs.uconn.extraEcdheKeys[hs.serverHello.serverShare.group]; ok {
 			hs.keyShareKeys.ecdhe = k
+		}
+		// the server may have selected a hybrid share other than the last one
+		if k, ok := hs.uconn.extraHybridKeys[hs.serverHello.serverShare.group]; ok {
+			hs.keyShareKeys.mlkem, hs.keyShareKeys.mlkemEcdhe = k.mlkem, k.ecdhe
 		}
 		// the classical half of a hybrid share has its own X25519 key, whatever
 		// group the first classical share of the hello is for (or if there is none)
